@@ -43,3 +43,51 @@ func idx(bs []*ssa.BasicBlock) []int {
 	}
 	return out
 }
+
+// dumpIPaths: -dump "ipaths:<fn suffix>:<inline name fragment>,<fragment>..." ; prints per path the
+// conditions and the events matching -dump's third field "…:<event fragment>".
+func dumpIPaths(P *Program, spec string) {
+	parts := strings.Split(spec, ":")
+	var frags []string
+	if len(parts) > 1 {
+		frags = strings.Split(parts[1], ",")
+	}
+	ev := ""
+	if len(parts) > 2 {
+		ev = parts[2]
+	}
+	for f := range P.AllFuncs {
+		if !inModule(f) || len(f.Blocks) == 0 || !strings.HasSuffix(fname(f), parts[0]) {
+			continue
+		}
+		ps, ok := enumPathsOpts(f, 400000, 1, InlineOpts{Inline: func(c *ssa.Function) bool {
+			for _, fr := range frags {
+				if fr != "" && strings.Contains(fname(c), fr) {
+					return true
+				}
+			}
+			return false
+		}, Relevant: func(x string) bool {
+			for _, w := range []string{"StatusCode", ".Method"} {
+				if strings.Contains(x, w) {
+					return true
+				}
+			}
+			return false
+		}, Interesting: func(e Event) bool { return e.Kind == "call" && ev != "" && strings.Contains(e.Desc, ev) }})
+		fmt.Printf("=== %s: %d paths complete=%v\n", fname(f), len(ps), ok)
+		hist := map[string]int{}
+		for _, p := range ps {
+			n := 0
+			for _, e := range p.Events {
+				if ev != "" && e.Kind == "call" && strings.Contains(e.Desc, ev) {
+					n++
+				}
+			}
+			hist[fmt.Sprintf("count=%d cut=%v ret=%v", n, p.Cut, p.Ret)]++
+		}
+		for k, v := range hist {
+			fmt.Printf("  %6d  %s\n", v, k)
+		}
+	}
+}
